@@ -240,16 +240,70 @@ Section Chain.
 
   Definition setc (rev : N) (c : cmap) (a : header) : cmap := cset (rev, h_num a) (cstate_of a) c.
 
-  Lemma repoint_spec ix rev : forall l ti c,
+  (** the root-main slots written by the re-pointing loop of variant [v_root] *)
+  Definition setr (rm : rmap) (a : header) : rmap := rset (to_hash (h_root a), h_num a) (key a) rm.
+  Definition rfold (fr : bool) (l : list header) (rm : rmap) : rmap := if fr then fold_left setr l rm else rm.
+
+  Lemma repoint_spec fr ix rev : forall l ti c rm,
     (forall a, In a l -> Stored ix a /\ h_num a < two63) -> Asc ti l ->
-    repoint ix rev ti (map hash l) c = Ok (fold_left (setc rev) l c).
+    repoint fr ix rev ti (map hash l) c rm = Ok (fold_left (setc rev) l c, rfold fr l rm).
   Proof.
-    induction l as [|a l IH]; intros ti c S A; [reflexivity|].
+    induction l as [|a l IH]; intros ti c rm S A; [destruct fr; reflexivity|].
     cbn [map repoint fold_left]. destruct A as [An A]. subst ti.
     destruct (S a (or_introl eq_refl)) as [Sa Ha]. unfold Stored, key in Sa. rewrite Sa.
     rewrite add64_succ by (pose proof two63_lt_two64; unfold two63, two64 in *; lia).
     change (cset (rev, h_num a) (cstate_of a) c) with (setc rev c a).
-    apply IH; [intros b I; apply S; right; exact I | exact A].
+    rewrite IH; [|intros b I; apply S; right; exact I | exact A].
+    destruct fr; reflexivity.
+  Qed.
+
+  Lemma fold_setr_other l : forall rm k, (forall a, In a l -> (to_hash (h_root a), h_num a) <> k) ->
+    rget k (fold_left setr l rm) = rget k rm.
+  Proof.
+    induction l as [|a l IH]; intros rm k N; [reflexivity|].
+    cbn [fold_left]. rewrite IH by (intros b I; apply N; right; exact I).
+    unfold setr, rset, rget. rewrite rget_rset. destruct (hkey_eqb_spec k (to_hash (h_root a), h_num a)) as [E|_]; [|reflexivity].
+    exfalso. apply (N a (or_introl eq_refl)). congruence.
+  Qed.
+
+  Lemma fold_setr_in l : forall rm a, NoDup (map h_num l) -> In a l ->
+    rget (to_hash (h_root a), h_num a) (fold_left setr l rm) = Some (key a).
+  Proof.
+    induction l as [|b l IH]; intros rm a ND I; [contradiction|].
+    cbn [fold_left]. cbn [map] in ND. inversion ND as [|? ? NI ND']; subst.
+    destruct I as [->|I].
+    - rewrite fold_setr_other.
+      + unfold setr, rset, rget. rewrite rget_rset, hkey_eqb_refl. reflexivity.
+      + intros x Ix E. apply NI. assert (E' : h_num x = h_num a) by congruence. rewrite <- E'. apply in_map. exact Ix.
+    - apply IH; assumption.
+  Qed.
+
+  (** * Loop 0 *)
+  Lemma walk0_eq ix d : forall fuel cur si ti,
+    si < two64 -> d = N.to_nat (si - ti) -> (d <= fuel)%nat ->
+    walk0 fuel ix cur si ti = match nth_anc ix cur d with Some a => Ok a | None => Err end.
+  Proof.
+    induction d as [|d IH]; intros fuel cur si ti Hsi Hd Hf.
+    - assert (L : (ti <? si) = false) by (apply N.ltb_ge; lia).
+      destruct fuel; cbn [walk0 nth_anc]; rewrite L; reflexivity.
+    - assert (L : (ti <? si) = true) by (apply N.ltb_lt; lia).
+      destruct fuel as [|f]; [lia|]. cbn [walk0 nth_anc]. rewrite L.
+      destruct (parent_of ix cur) as [p|]; [|reflexivity].
+      rewrite sub64_pred by lia. apply IH; lia.
+  Qed.
+
+  Lemma walk0_sound ix : forall fuel cur si ti r,
+    si < two64 -> walk0 fuel ix cur si ti = Ok r -> nth_anc ix cur (N.to_nat (si - ti)) = Some r.
+  Proof.
+    induction fuel as [|f IH]; intros cur si ti r Hsi W.
+    - cbn in W. destruct (N.ltb_spec ti si) as [L|L]; [discriminate|].
+      inversion W; subst. replace (si - ti) with 0 by lia. reflexivity.
+    - cbn in W. destruct (N.ltb_spec ti si) as [L|L].
+      + destruct (parent_of ix cur) as [p|] eqn:P; [|discriminate].
+        rewrite sub64_pred in W by lia.
+        replace (N.to_nat (si - ti)) with (S (N.to_nat (si - 1 - ti))) by lia.
+        cbn [nth_anc]. rewrite P. apply IH; [lia | exact W].
+      + inversion W; subst. replace (si - ti) with 0 by lia. reflexivity.
   Qed.
 
   Lemma fold_setc_other rev l : forall c k, (forall a, In a l -> (rev, h_num a) <> k) ->
